@@ -15,7 +15,7 @@ ASSUMPTIONS = ["the fault model is ArithmeticError raised by the user-visible KK
                "conelp answers 'unknown' for an iteration-0 failure that follows a successful start-up factorisation - both outcomes are accepted there"]
 REQUIRED_COUNTERS = ["inject.conelp.factor", "inject.conelp.solve", "inject.coneqp.factor", "inject.coneqp.solve", "inject.cpl.factor",
                      "inject.cpl.solve", "inject.cp.factor", "inject.cp.solve", "outcome.unknown", "outcome.rank-ValueError",
-                     "refusing-F.runs", "with-start-points"]
+                     "refusing-F.runs", "with-start-points", "coneqp.no-inequalities"]
 
 
 def plan(tier):
@@ -170,7 +170,12 @@ def run(ctx):
         if solver == "conelp":
             pr = sc.gen_instance(rng, "conelp", "feasible")
         else:
-            pr = sc.gen_qp_instance(rng, "coneqp")
+            # one coneqp problem in eight has no inequality constraints: coneqp then makes ONE factor and ONE solve call
+            # (its start-up) and returns
+            noineq = rng.random() < 0.125
+            pr = sc.gen_qp_instance(rng, "coneqp", noineq=noineq)
+            if noineq and pr is not None:
+                ctx.count("coneqp.no-inequalities")
         if pr is None:
             ctx.count("generator.none"); return
         d = pr.dims
